@@ -355,6 +355,13 @@ func castOracles(rep *streamReport, props map[string]bool, t castTarget, v inter
 		}
 		if bits != 0 {
 			rep.OracleChecks["H-float"]++
+			// H_parse_bool_digits (C13/C05)
+			if z, e0 := strconv.ParseFloat("0", 64); e0 != nil || math.Float64bits(z) != 0 {
+				addViolation(rep, "C12", "oracle hypothesis H_parse_bool_digits: ParseFloat(\"0\") is not +0.0", in())
+			}
+			if one, e1 := strconv.ParseFloat("1", 64); e1 != nil || math.Float64bits(one) != 0x3FF0000000000000 {
+				addViolation(rep, "C12", "oracle hypothesis H_parse_bool_digits: ParseFloat(\"1\") is not 1.0", in())
+			}
 			txt := strconv.FormatFloat(x64, 'f', -1, bits)
 			if math.IsNaN(x64) || math.IsInf(x64, 0) {
 				if txt != "NaN" && txt != "+Inf" && txt != "-Inf" {
@@ -370,6 +377,13 @@ func castOracles(rep *streamReport, props map[string]bool, t castTarget, v inter
 				}
 				if bits == 32 && math.Float32bits(float32(x64)) != math.Float32bits(v.(float32)) {
 					addViolation(rep, "C12", "float32 -> float64 -> float32 is not the identity", in())
+				}
+				// H_jfloat_rt (C13/C05): json.Marshal's text of a finite float is a JSON number read back as the value
+				rep.OracleChecks["H-jfloat-rt"]++
+				if jb, jerr := json.Marshal(v); jerr != nil || !jsonNumberRe.Match(jb) {
+					addViolation(rep, "C12", fmt.Sprintf("oracle hypothesis H_jfloat_rt: json.Marshal gives %q (%v), not a JSON number", jb, jerr), in())
+				} else if back, err := strconv.ParseFloat(string(jb), bits); err != nil || math.Float64bits(back) != math.Float64bits(x64) {
+					addViolation(rep, "C12", fmt.Sprintf("oracle hypothesis H_jfloat_rt: %q is not read back as the value", jb), in())
 				}
 			}
 		}
